@@ -244,6 +244,20 @@ def run_case(case, ctx):
                 pass
             do_ops(ctx, xf, y, routes=('operator', 'numpy'))
             if not fx[0] and not fy[0]:
+                import warnings
+                with warnings.catch_warnings():
+                    warnings.simplefilter('error')          # e.g. pytest -W error: the result must not depend on NumPy's warning state
+                    for ov in ('saturate', 'wrap'):
+                        a_ = Fxp(lox, False, fx[1], fx[2], raw=True, overflow=ov)
+                        b_ = Fxp(hiy, False, fy[1], fy[2], raw=True)
+                        try:
+                            a_ - b_
+                        except Exception:
+                            pass
+                        try:
+                            ctx.mon.fxpmath.sub(Fxp(np.array([lox, hix]), False, fx[1], fx[2], raw=True, overflow=ov), Fxp(np.array([hiy, loy]), False, fy[1], fy[2], raw=True))
+                        except Exception:
+                            pass
                 try:
                     d = Fxp(lox, False, fx[1], fx[2], raw=True) - Fxp(hiy, False, fy[1], fy[2], raw=True)   # documented exception: underflow raised
                     if d.n_word + y.n_word <= MAX_RESULT_WORD:
